@@ -156,4 +156,65 @@ def r19_3(ctx):
         ctx.ob("R19.3", f"helper:{h}", cs == [acc], g.loc(), f"{h} compares through {cs}")
 
 
-RULES = [("R19.1", r19_1), ("R19.2", r19_2), ("R19.3", r19_3)]
+def r19_4(ctx):
+    """sibling agreement of the two map-key deserializers (text route: serde::de::MapKey, DOM route:
+    value::de::MapKeyDeserializer): a numeric key is recognised by the same first-byte alphabet, the ten digits and '-',
+    evaluated over all 256 byte values"""
+    from .c02 import arm_of, _byte_alias, tuple_place
+    prog = ctx.prog()
+    want = {45} | set(range(48, 58))
+    n = 0
+    per_route = collections.defaultdict(set)
+    for f in prog.fns.values():
+        if f.crate != "sonic_rs" or f.kind == "Closure":
+            continue
+        adt = f.self_adt or ""
+        if not adt.endswith(("value::de::MapKeyDeserializer", "serde::de::MapKey")):
+            continue
+        errb = {b for b, i, s in f.assigns() if s["rv"]["k"] == "agg" and s["rv"].get("adt", "").endswith("error::ErrorCode") and s["rv"].get("variant") == "ExpectedNumericKey"}
+        if not errb:
+            continue
+        n += 1
+        # the peeked byte: payload of the Option returned by peek()
+        pk = [(b, t) for b, t in f.calls() if callee_is(t, "peek")]
+        key = f"{adt.rsplit('::', 1)[-1]}::{f.name}"
+        if len(pk) != 1:
+            ctx.ob("R19.4", f"numeric-key-alphabet:{key}", False, f.loc(), "the first byte of the key is not obtained by one peek(): alphabet not evaluable (fail closed)")
+            continue
+        opt = pk[0][1]["dest"][0]
+        start = None
+        for b, t in f.terms():
+            if t["k"] == "switch" and f.dominates(pk[0][0], b):
+                d = f.single_def(op_local(t["discr"])) if op_local(t["discr"]) is not None else None
+                if d and d[0] == "stmt" and d[3]["rv"]["k"] == "discr" and d[3]["rv"]["p"][0] == opt:
+                    some = [x for v, x in t["targets"] if int(v) == 1]
+                    start = some[0] if some else t["otherwise"]
+                    break
+        if start is None:
+            ctx.ob("R19.4", f"numeric-key-alphabet:{key}", False, f.loc(), "no Some/None dispatch on the peeked byte: alphabet not evaluable (fail closed)")
+            continue
+        bplace = (opt, '[["as", "Some"], [".", 0, "0"]]')
+        places = set()
+        for b, i, s in f.assigns():
+            for o in ([s["rv"].get("a"), s["rv"].get("b"), s["rv"].get("op")]):
+                if isinstance(o, dict) and o.get("k") in ("copy", "move") and o["p"][0] == opt and o["p"][1]:
+                    places.add(tuple_place(o["p"]))
+        for b, t in f.terms():
+            if t["k"] == "switch" and t["discr"].get("k") in ("copy", "move") and t["discr"]["p"][0] == opt and t["discr"]["p"][1]:
+                places.add(tuple_place(t["discr"]["p"]))
+        is_byte = _byte_alias(f, places)
+        acc = set()
+        for v in range(256):
+            arm = arm_of(f, start, is_byte, v)
+            if not (({arm} | f.reachable_from(arm)) & errb):
+                acc.add(v)
+        per_route[adt.rsplit("::", 1)[-1]].add(frozenset(acc))
+        ctx.ob("R19.4", f"numeric-key-alphabet:{key}", acc == want, f.loc(),
+               f"a numeric key starts with {''.join(sorted(chr(v) for v in acc))!r} (evaluated over all 256 first bytes)" if acc == want else
+               f"a numeric key is recognised by first byte in {sorted(chr(v) for v in acc)[:14]} instead of the ten digits and '-': " + ("negative keys written by the serializer are rejected" if 45 not in acc else "other texts are taken for numbers"))
+    ctx.floor("R19.4", "numeric map-key deserializer methods with a first-byte test", n, 10)
+    ctx.ob("R19.4", "numeric-key-alphabet:routes-agree", len(per_route) == 2 and all(len(v) == 1 for v in per_route.values()) and len({next(iter(v)) for v in per_route.values()}) == 1, "",
+           f"the text route and the DOM route use one alphabet ({ {k: [''.join(sorted(chr(x) for x in a)) for a in v] for k, v in per_route.items()} })")
+
+
+RULES = [("R19.1", r19_1), ("R19.2", r19_2), ("R19.3", r19_3), ("R19.4", r19_4)]
